@@ -246,19 +246,51 @@ def _user_drop_sites(ctx):
 JOIN_HANDLE_TYPES = ('desync::SchedulerThread', 'std::thread::join_handle::JoinHandle')
 
 
+def _reach_avoiding(fn, a, b, avoid):
+    """Is there a path (normal edges) from block a to block b that does not pass through `avoid`?"""
+    seen, work = set(), [t for _, t in fn.edges(a, unwind=False)]
+    while work:
+        x = work.pop()
+        if x in seen or x == avoid:
+            continue
+        seen.add(x)
+        if x == b:
+            return True
+        work.extend(t for _, t in fn.edges(x, unwind=False))
+    return False
+
+
 def bounded_join(ctx, fn, bb):
     """A join is bounded (not a blocking site) when the handle can only be one for which is_finished() returned true:
     every push onto the vector the joined handle is drawn from is dominated by the true edge of an is_finished() test."""
     from .ordq import result_edges, edom
     fin_true = set()
+    fin_holds = frozenset()
+    H = ctx.held(fn)
     for b2, t in fn.calls():
         name = t['func'].get('fn') or ''
         if name.endswith('::is_finished'):
             e = result_edges(fn, b2)
             if e and e.get('otherwise') is not None:
                 fin_true.add(e['otherwise'])
+                fin_holds |= H.holds_at_term(b2)
     if not fin_true:
         return None
+    # the handle that is taken out of the table is the one that was tested: removal and test under one hold of the table's lock
+    # (an index that survives a release of the lock designates whatever thread sits there afterwards)
+    for b2, t in fn.calls():
+        name = t['func'].get('fn') or ''
+        if name.endswith(('::Vec::remove', '::Vec::swap_remove')) and not fn.blocks[b2]['cleanup'] and H.guards:
+            if H.holds_at_term(b2) and fin_holds and not (H.holds_at_term(b2) & fin_holds):
+                return None
+            # ... and no acquisition lies between the test and the removal (inside a loop the same acquisition site is met by every turn)
+            for site in H.holds_at_term(b2):
+                if site[0] not in ('c', 'a'):
+                    continue
+                sb = site[1]
+                for fb, ft in fn.calls():
+                    if (ft['func'].get('fn') or '').endswith('::is_finished') and sb != fb and _reach_avoiding(fn, fb, sb, b2) and _reach_avoiding(fn, sb, b2, fb):
+                        return None
     pushes = []
     for b2, t in fn.calls():
         name = t['func'].get('fn') or ''
@@ -500,6 +532,73 @@ def cv(ctx):
             out.append(bad('CV2', key, 'Condvar::wait is not inside a loop that re-tests its condition (spurious or early wake-ups are taken as completion)', loc=fn.loc(bb), fn=fn.name))
         else:
             out.append(ok('CV2', key, 'wait re-tested in a loop', loc=fn.loc(bb), fn=fn.name))
+    # CV3: the guard handed to wait() is a hold under which the waiter has looked at its condition: on every path from the
+    # acquisition of that hold to the wait there is a read through the guard.  (Test under one hold, release, lock again and
+    # wait: the notifier that ran in between found nobody waiting and will not come back.)
+    for fn, bb, cls in waits:
+        if cls is None:
+            continue
+        key = '%s|wait:%s' % (short(fn.name), cls)
+        H = ctx.held(fn)
+        gl = guard_locals(fn)
+        t = fn.blocks[bb]['term']
+        sites = H.holds_before(bb, len(fn.blocks[bb]['stmts']), cls)
+        arg_locals = [a['pl']['l'] for a in t['args'] if a['k'] == 'move' and a['pl']['l'] in gl]
+        sites = frozenset(s_ for (l_, s_) in H.gbefore.get((bb, len(fn.blocks[bb]['stmts'])), frozenset()) if l_ in arg_locals)
+        stale = []
+        for site in sorted(sites, key=str):
+            if site[0] == 'arg':
+                continue
+            if site[0] == 'c':
+                start, from_idx = fn.blocks[site[1]]['term'].get('target'), 0
+            else:
+                start, from_idx = site[1], site[2] + 1
+            if start is None:
+                continue
+            reads = set()
+            # a read through the guard: `*g` is Deref::deref(&g) (or a direct deref of the guard in the place)
+            refs = {}
+            for b2, blk in enumerate(fn.blocks):
+                for i2, st in enumerate(blk['stmts']):
+                    if st['k'] == 'assign' and st['rv']['k'] == 'ref' and not st['pl']['p'] and not st['rv']['pl']['p'] and st['rv']['pl']['l'] in gl and gl[st['rv']['pl']['l']] == cls:
+                        refs[st['pl']['l']] = st['rv']['pl']['l']
+            for b2, blk in enumerate(fn.blocks):
+                if blk['cleanup']:
+                    continue
+                n2 = len(blk['stmts'])
+                for i2, st in enumerate(blk['stmts']):
+                    if st['k'] != 'assign' or (b2 == start and i2 < from_idx):
+                        continue
+                    from .rules_lw import _places_in_rvalue
+                    for pl in _places_in_rvalue(st['rv']):
+                        if pl['l'] in gl and gl[pl['l']] == cls and any(p_['k'] == 'deref' for p_ in pl['p']) and site in H.holds_before(b2, i2, cls):
+                            reads.add(b2)
+                t2 = blk['term']
+                if t2 and t2['k'] == 'call' and (t2['func'].get('fn') or '').startswith(('core::ops::deref::Deref::deref', 'core::ops::deref::DerefMut::deref_mut')) and b2 != bb:
+                    a0 = t2['args'][0] if t2['args'] else None
+                    if a0 and a0['k'] in ('copy', 'move') and not a0['pl']['p'] and a0['pl']['l'] in refs:
+                        g_ = refs[a0['pl']['l']]
+                        if site in frozenset(s_ for (l_, s_) in H.gbefore.get((b2, n2), frozenset()) if l_ == g_):
+                            reads.add(b2)
+            # a path from the start of the hold to the wait that meets no read under this hold
+            seen, work, hit = set(), [start], False
+            while work:
+                x = work.pop()
+                if x in seen or x in reads:
+                    continue
+                seen.add(x)
+                if x == bb:
+                    hit = True
+                    break
+                for lab, tgt in fn.edges(x, unwind=False):
+                    if site in H.holds_before(tgt, 0, cls) or tgt == bb:
+                        work.append(tgt)
+            if hit:
+                stale.append(site)
+        if stale:
+            out.append(bad('CV3', key, 'waits with a guard taken after the last test of the condition (the mutex was released and locked again between the test and the wait): a notification sent in between is lost', loc=fn.loc(bb), fn=fn.name))
+        else:
+            out.append(ok('CV3', key, 'every hold of the mutex that reaches the wait has read the guarded condition first (%d hold(s))' % len(sites), loc=fn.loc(bb), fn=fn.name))
     if not waits:
         out.append(undecided('CV2', 'floor', 'no Condvar::wait site found (expected 1)'))
     # notify sites
